@@ -19,7 +19,15 @@ var c06InitPrograms = [][]byte{
 	{0xfe},                         // invalid opcode
 	{0x60, 0x00, 0x60, 0x00, 0xfd}, // PUSH1 0 PUSH1 0 REVERT
 	{0x60, 0x02, 0x60, 0x00, 0xf3}, // PUSH1 2 PUSH1 0 RETURN: two bytes of code, 400 gas to store
+	// PUSH1 0 PUSH1 0 LOG0; PUSH2 0x6001 PUSH1 0 RETURN: emits a log, then returns 24577 zero bytes:
+	// one more than params.MaxCodeSize - from EIP158 on the creation fails and everything is rolled back
+	{0x60, 0x00, 0x60, 0x00, 0xa0, 0x61, 0x60, 0x01, 0x60, 0x00, 0xf3},
+	// the same returning exactly 24576 bytes (the largest admissible code)
+	{0x60, 0x00, 0x60, 0x00, 0xa0, 0x61, 0x60, 0x00, 0x60, 0x00, 0xf3},
 }
+
+// size of the code each init program returns
+var c06InitReturns = []int{0, 0, 0, 0, 2, 24577, 24576}
 
 // the address the contract is created at: under the engine crypto.CreateAddress is
 // redirected to c06CreateAddress (a symbolic nonce would need Keccak of symbolic
@@ -39,6 +47,7 @@ type c06CreateCase struct {
 	t         *c06Tx
 	tr        *c06Tracer
 	prog      []byte
+	progIdx   int
 	at        common.Address // where the contract goes
 	pre       int            // 0: fresh address, 1: funded but unused account there, 2: used account there (collision)
 	preBal    *big.Int
@@ -59,7 +68,8 @@ func c06RunCreateX(effects bool, sum0 *big.Int) *c06CreateCase {
 	c := &c06CreateCase{}
 	t := c06Setup(3, 0)
 	c.t = t
-	c.prog = c06InitPrograms[vs.Choice("program", vs.Param("P"))]
+	c.progIdx = vs.Choice("program", vs.Param("P"))
+	c.prog = c06InitPrograms[c.progIdx]
 	t.data = c.prog
 	// slot 1 (the unused recipient role) may sit at the address of the new contract
 	c.pre = vs.Choice("preexisting", vs.Param("X"))
@@ -140,6 +150,20 @@ func VerifC06_CreateEVM() {
 	if kept && c.failed {
 		vs.Reach("frontier-codestore")
 	}
+	retLen := c06InitReturns[c.progIdx]
+	if retLen > 24576 && c.eip158 {
+		vs.Reach("oversize")
+		vs.Assert(c.failed, "a creation returning more than 24576 bytes of code fails (EIP158 rules)")
+	}
+	// a failed frame keeps its leftover gas only if it ended in REVERT (Byzantium on) or, before
+	// Homestead, ran out of gas for the code deposit; every other failure consumes all gas
+	reverted := c.progIdx == 3 && t.cfg.IsByzantium(big.NewInt(100))
+	if c.failed && !kept && !reverted {
+		vs.Assert(tr.log.left == 0, "a failed creation (other than REVERT) consumes all its gas")
+	}
+	if !kept {
+		vs.Assert(t.db.nlogs == 0, "no log survives a failed creation")
+	}
 
 	spent := t.limit - tr.log.left
 	refund := spent / 2
@@ -193,8 +217,11 @@ func VerifC06_CreateEVM() {
 			wn = 1
 		}
 		vs.Assert(nc.nonce == wn, "contract nonce")
-		if len(c.prog) == 5 && c.prog[4] == 0xf3 && !c.failed {
-			vs.Assert(len(nc.code) == 2, "returned code stored")
+		if !c.failed {
+			vs.Assert(len(nc.code) == retLen, "returned code stored")
+			if retLen == 24576 {
+				vs.Reach("maxsize-stored")
+			}
 		} else {
 			vs.Assert(len(nc.code) == 0, "no code stored")
 		}
